@@ -126,10 +126,11 @@ func (p *Parser) Parse() (al align.Alignment, err error) {
 			break
 		}
 
-		if tok == IDENT || tok == NUMERIC {
+		// (after the header the word STOCKHOLM can only be a sequence name or residues)
+		if tok == IDENT || tok == NUMERIC || tok == STOCKHOLM {
 			name := lit
 			tok, lit = p.scanIgnoreWhitespace()
-			if tok != IDENT {
+			if tok != IDENT && tok != STOCKHOLM {
 				err = fmt.Errorf("found illegal sequence %q", lit)
 				return
 			}
